@@ -7,7 +7,7 @@ from vlib.runner import HarnessError, Violation, sut
 from vlib.spec import build, pk
 
 ID = "C18"
-BUDGET = {"quick": 1280, "thorough": 24000}
+BUDGET = {"quick": 1280, "thorough": 120000}
 RULE = ("Generated histories (lists of 4..16 steps in quick, ..40 in thorough; every index is taken modulo the size of "
         "the pool it refers to, so every list is a valid history and shrinks as one value) over the operations: create "
         "a context (drawn flags), enter a context that is not active, exit the innermost context normally or with an "
